@@ -44,9 +44,13 @@ def grouping(draw, n, allow_default=True, force=None, min_groups=1):
     kind = 'int' if by == 'index' else draw(st.sampled_from(['int', 'str']))
     _, labs = draw(gen.label_set(n, kinds=(kind,)))
     mode = draw(st.sampled_from(['repeated', 'repeated', 'repeated', 'repeated', 'repeated',
-                                 'unique', 'unique', 'one']))
+                                 'unique', 'unique', 'unique-sorted', 'one']))
     lo = min(max(1, min_groups), n)
-    if mode == 'unique' or n == 1:
+    if mode == 'unique-sorted':
+        # the everyday case: one distinct label per item, stored in ascending order
+        labs = sorted(labs)
+        assign = list(range(n))
+    elif mode == 'unique' or n == 1:
         assign = draw(gen.permutation(n))
     elif mode == 'one' and lo <= 1:
         assign = [0] * n
